@@ -325,6 +325,7 @@ theorem specSteps_rejected_stays (env : Env) (body : List Step) (b : Body) (hb :
         · exact ih _ hb
         · rfl
     | fail tag => rfl
+    | fail1 tag => rfl
     | addCommit tag => exact ih _ hb
     | addPre tag fails => exact ih _ hb
     | nestedBegin => exact ih _ hb
@@ -349,6 +350,32 @@ theorem specSteps_caller_error (env : Env) (body : List Step) (tag : Nat) (hm : 
           · exact ih hr _
           · rfl
       | fail tag => rfl
+      | fail1 tag => rfl
+      | addCommit tag => exact ih hr _
+      | addPre tag fails => exact ih hr _
+      | nestedBegin => exact ih hr _
+      | nestedEnd => exact ih hr _
+      | useSystemCtx => exact ih hr _
+
+/-- a body that fails the first time it is executed is not accepted on that execution -/
+theorem specSteps_first_run_error (env : Env) (body : List Step) (tag : Nat) (hm : Step.fail1 tag ∈ body) (b : Body) :
+    (specSteps env body b).accepted = false := by
+  induction body generalizing b with
+  | nil => cases hm
+  | cons s rest ih =>
+    rcases List.mem_cons.mp hm with rfl | hr
+    · rfl
+    · cases s with
+      | op o fault swallow =>
+        unfold specSteps
+        simp only
+        split
+        · exact ih hr _
+        · split
+          · exact ih hr _
+          · rfl
+      | fail tag => rfl
+      | fail1 tag => rfl
       | addCommit tag => exact ih hr _
       | addPre tag fails => exact ih hr _
       | nestedBegin => exact ih hr _
@@ -371,6 +398,7 @@ theorem specSteps_pre_mono (env : Env) (body : List Step) (b : Body) (x : Nat ×
         · exact ih _ hx
         · exact hx
     | fail tag => exact hx
+    | fail1 tag => exact hx
     | addCommit tag => exact ih _ hx
     | addPre tag fails => exact ih _ (by simp [hx])
     | nestedBegin => exact ih _ hx
